@@ -1309,6 +1309,9 @@ impl SvgElement {
                     let (dx, dy) = bbox.locspec(LocSpec::TopLeft);
                     self.set_attr("x", &fstr(x - dx));
                     self.set_attr("y", &fstr(y - dy));
+                } else {
+                    // the target has no box (yet): wait for it rather than drop the position
+                    return Err(SvgdxError::MissingBoundingBox(self.to_string()));
                 }
             }
             _ => {
